@@ -62,7 +62,7 @@ CHECKS = {
          'Loss comparison tolerance 1e-9 relative + 1e-9 x loss of the all-zero table; estimated totals compared with the pinv reference at 1e-6.'),
  'C18': ('Hypothesis-generated measurement sets x marginal oracle x iteration counts: crash-freedom and validity predicate on the measured clique tables, loss vs uniform start, feasibility of the convex oracle; differential against the certified simplex-QP optimum on disjoint clique families',
          'Generated-input search; every exception raised by the estimator is a violation (inputs stay inside the documented interface: explicit Q, tuple projections); exactness clause with iteration escalation and plateau rule.',
-         'pairwise-convex oracle needs cvxopt (not installed) and is outside the listed quantifier. With structural zeros declared the uniform-start clause is replaced by no-mass-on-declared-cells; F23 (2-cycle) and F25 (convex oracle stationary and inconsistent under structural zeros) are listed known findings.'),
+         'pairwise-convex oracle needs cvxopt (not installed) and is outside the listed quantifier. With structural zeros declared the uniform-start clause is not applied (completion, validity, feasibility only); F23 (2-cycle) and F25 (convex oracle stationary and inconsistent under structural zeros) are listed known findings.'),
  'C05': ('Hypothesis-generated (mechanism, dataset, neighbour, parameters, numpy seed); numpy.random interposer with operand capture and coupled replay on the neighbour; privacy ledger vs the harness-own zCDP conversion',
          'Generated-input search over all four shipped mechanisms: each noisy release and private selection is charged by the actual change of its operand / probability vector between D and D\' and the total is compared with an independently computed budget. Samples random outcome sequences (seeds); does not enumerate them.',
          'hdmm Identity replaced by scipy.sparse.eye; inference iterations capped at 25 inside the mechanisms; selections charged with the bounded-range bound eta^2/8. F12 (AIM with too few rounds) is a listed known finding.'),
